@@ -86,7 +86,7 @@ Definition apply_decorator (did : deco_id) (d : deco_v) (s1 : rstate) : rres uni
       | p :: _ =>
           match pj_value p with
           | JStr name =>
-              ROk tt (set_local_helpers s1 (map_insert (s_local_helpers s1) name (HLocal name)))
+              ROk tt (set_local_helpers s1 (map_insert (s_local_helpers s1) name (HLocal (sethelper_tag d name))))
           | _ => rfail (ROther (`"sethelper")) s1
           end
       | [] => rfail (ROther (`"sethelper")) s1
